@@ -120,7 +120,10 @@ PROPS = {
     "C20": dict(units=["origins"], level="proof", assumptions=ORIGINS_ASSUME,
                 claim="ProjectType::{is_vcs,is_soft}, DirList::*, check_list, origins (ancestor walk, loop invariant, termination) and types proved by Verus against specs transcribed from the docs, for all paths and directory contents",
                 trusted="stand-ins in prelude/origins_env.rs (abstract paths, directory listing map, HashSet/array iterator idioms); string literals interned (R9)"),
-    "C19": dict(units=["names"], engines=[_kani.make_engine("signals"), _kani.make_engine("events"), nixtable_engine], level="proof",
+    "C19": dict(units=["names"], engines=[_kani.make_engine("signals"), _kani.make_engine("events"), nixtable_engine,
+                                         replay_engine("nixtable", "names", "C19.exhaustive.real_parser_and_printer_on_every_spelling",
+                                                       "the real Signal::from_str / Display on every signal number nix knows (1..=64) in three spellings (number, SIG name, short name) x three letter cases, every first-class signal, and the 13 documented Windows control spellings (255 strings): display forms parse back to the same OS signal, the spellings agree, control names take precedence over the unix short name only",
+                                                       label="EXHAUSTIVE EXECUTION over the finite set of signal spellings on the real code (complements the Verus proof of unit names, whose string theory is axiomatised): ")], level="proof",
                 back_ends=["kani 0.68 / cbmc 6.11 (loop-free harnesses over full-domain symbolic inputs: complete, not bounded)", "verus 0.2026.09.13 (z3) for name parsing/display", "execution of the real nix crate for the assumed table contract (validation, not proof)"],
                 assumptions=["linux/unix variants only", "wait-status encoding of the host libc (WIFEXITED/WEXITSTATUS/WIFSIGNALED/WTERMSIG as implemented by std on linux) restated in the harness",
                              "name parsing/display (unit names): strings are abstract; STRING THEORY axioms (upper-casing idempotent and number-preserving, decimal print/parse round trip, SIG prefix, distinct literals) and the nix table contract are assumed, the latter validated by execution on every run; the --map-signal clap glue is not decided",
